@@ -347,7 +347,16 @@ def fam_C06(seed, n):
             elif y < 0.55:
                 p2 = port + 1
             elif y < 0.65:
-                a2 = "[2001:db8::%d]:%d" % (r.randint(1, 9), p2)
+                # IPv6 peers, among them IPv4-mapped ones (what a dual-stack listener reports for an IPv4 client): never compared
+                form = r.random()
+                if form < 0.4:
+                    a2 = "[2001:db8::%d]:%d" % (r.randint(1, 9), p2)
+                elif form < 0.7:
+                    a2 = "[::ffff:%d.%d.%d.%d]:%d" % (r.randint(1, 250), r.randint(1, 250), o2[2], o2[3], p2)
+                elif form < 0.85:
+                    a2 = "[::ffff:%d.%d.%d.%d]:%d" % (o2[0], o2[1], o2[2], o2[3], p2)
+                else:
+                    a2 = "[::ffff:%02x%02x:%02x%02x]:%d" % (o2[0], o2[1], o2[2], o2[3], p2)
             ua2 = ua
             z = r.random()
             if z < 0.2:
